@@ -7,8 +7,9 @@ from . import witness
 
 PROPERTY = "C11"
 TECHNIQUE = ("SHIFTGUARD (zero-width guard dominating width-complement shifts, interprocedural for private helpers) + "
-             "CALLSET on the trait's default methods + SIBLING on the write_bytes_aligned overrides + compile-fail "
-             "witnesses for the sealed operand traits")
+             "CALLSET on the trait's default methods + SIBLING on the write_bytes_aligned overrides + FILLSTATE + "
+             "GROWTH/ceil + LENGTH (field-effect summary of self.bitlength per operation) + PADFORMULA + WIDTH/const + "
+             "compile-fail witnesses for the sealed operand traits")
 EXPLANATION = (
     "Narrow claim. Decided: (SHIFTGUARD) in the write_msbs / write_lsbs / write_zeros bodies of every BitSink impl and "
     "in the private helpers they call, every shift whose amount is `BITS - n` for a width parameter n (the expression "
@@ -17,7 +18,13 @@ EXPLANATION = (
     "(CALLSET) the default methods of the BitSink trait call, on self, only methods of the trait, and reduce to the "
     "required ones, so a user sink that implements only the required operations sees every bit through them; "
     "(SIBLING) every override of write_bytes_aligned begins with align_to_byte; (TYPESTATE) user types cannot be "
-    "written and the operand traits cannot be implemented outside the crate (three witnesses with twins). NOT "
+    "written and the operand traits cannot be implemented outside the crate (three witnesses with twins); (LENGTH) "
+    "the 'same length' clause: the effect interpreter summarises the final value of self.bitlength for each of the "
+    "twelve BitSink methods of MemSink<u8>/MemSink<u64> (helpers inlined, loops summed, generic operand width "
+    "resolved), and every leaf of the case tree must equal the initial length plus the ideal count (operand width, "
+    "n, zero-run length, byte padding, padding + 8*len); (PADFORMULA) the fill readers return (-bitlength) mod "
+    "word/byte width; (WIDTH/const) the sealed operand trait's BITS/BYTES/BITS_LOG2 evaluate to the type's width "
+    "for every implementor. NOT "
     "decided: bit-exactness of the shift/carry arithmetic over offsets x widths (numerical).")
 NOT_DECIDED = "bit-exact behaviour of the sinks (shift/carry arithmetic); zero-width two's-complement fields"
 ASSUMPTIONS = []
@@ -257,6 +264,7 @@ def run(facts, tier, ctx):
     # sink method is preceded, on every path, by a read of the word-level fill (`paddings()`, directly or through a wrapper
     # all of whose paths read it).  A byte-level alignment alone is not enough for a sink with wider words.
     from .lib_mpt import performs, mpt, path_str
+    from . import lib_effect as E
     from .lib_expr import expr as lexpr
     fs = RuleResult("FILLSTATE", "every growth of a sink's storage is dominated by a read of the word-level fill state")
     fill_readers = [b for b in facts.body_list if (b.raw.get("impl_self") or "").startswith("bitsink::MemSink")
@@ -272,9 +280,13 @@ def run(facts, tier, ctx):
         fs.fail(Finding("FILLSTATE", "bitsink::MemSink::paddings", "fill-reader-not-found", 0, "",
                         "cannot find the word-level fill reader (bitlength masked with BITS - 1)"))
 
-    def reads_fill(t):
-        fn = t.get("fn") or {}
-        return fn.get("name") == "paddings" and (fn.get("def") or "").startswith("bitsink::MemSink")
+    def reads_fill_for(unit):
+        def reads_fill(t):
+            fn = t.get("fn") or {}
+            # for a byte-backed sink the byte-level reader is the word-level one
+            names = ("paddings", "paddings_to_byte") if unit == 8 else ("paddings",)
+            return fn.get("name") in names and (fn.get("def") or "").startswith("bitsink::MemSink")
+        return reads_fill
     GROW = ("push", "resize", "extend_from_slice", "extend", "insert", "append", "resize_with")
     methods = []
     for imp in impls:
@@ -295,7 +307,8 @@ def run(facts, tier, ctx):
                 methods.append(c)
                 work.append(c)
     for b in methods:
-        through = performs(facts, b, reads_fill, depth=2)
+        mu = re.search(r"MemSink<(u\d+)>", b.raw.get("impl_self") or b.id)
+        through = performs(facts, b, reads_fill_for(E.INT_BITS.get(mu.group(1)) if mu else None), depth=2)
         for bi, t in b.calls():
             fn = t.get("fn") or {}
             if fn.get("name") not in GROW or "Vec" not in (fn.get("full") or ""):
@@ -421,4 +434,550 @@ def run(facts, tier, ctx):
                 gr.ok({"function": b.id, "growth": E.show(K)[:80], "unit_bits": unit, "verdict": "= ceil(x / unit) on 1..=%d" % (2 * unit + 1)})
     gr.require_floor(2, "resize sites in the sink implementations")
     out.append(gr)
+    out.extend(rule_length(facts, impls))
     return out
+
+
+# ------------------------------------------------------------------------------------------------ LENGTH
+# "same length": every operation of the in-memory sinks advances the recorded bit length by exactly the number of bits an
+# ideal bit string would take.  The effect interpreter, with field tracking on, summarises the final value of
+# `self.bitlength` of every BitSink method of MemSink<u8> / MemSink<u64> (helpers inlined; the fill readers kept opaque
+# and judged separately by PADFORMULA); the summary is a case tree of linear expressions and every leaf must be the
+# initial length plus the ideal count.
+
+def _is_lc(e):
+    return isinstance(e, tuple) and e and e[0] in ("idx", "elem", "off", "lc")
+
+
+def _leaves(e, conds=()):
+    """Expand an expression into [(conds, case-free expression)]; constant discriminants are folded."""
+    from . import lib_effect as E
+    if not isinstance(e, tuple) or not e:
+        return [(conds, e)]
+    k = e[0]
+    if k == "case":
+        d = E.evalc(e[1])
+        out = []
+        for lab, v in e[2]:
+            labs = lab if isinstance(lab, tuple) else (lab,)
+            if d is not None:
+                if d in labs or ("else" in labs and not any(d in (l2 if isinstance(l2, tuple) else (l2,)) for l2, _ in e[2])):
+                    out.extend(_leaves(v, conds))
+                continue
+            out.extend(_leaves(v, conds + ((e[1], labs),)))
+        return out
+    if k == "bin":
+        return [(ca + cb[len(conds):], ("bin", e[1], a, b)) for ca, a in _leaves(e[2], conds) for cb, b in _leaves(e[3], conds)]
+    if k == "ovf":
+        return _leaves(e[1], conds)
+    if k == "cast":
+        return [(c, e[:2] + (v,) + e[3:]) for c, v in _leaves(e[2], conds)]
+    if k == "sumloop":
+        return [(c, ("sumloop", e[1], v)) for c, v in _leaves(e[2], conds)]
+    return [(conds, e)]
+
+
+def _poly(e, subst):
+    """Linear form {atom: coef, '': const} of a case-free expression; non-linear sub-terms become atoms."""
+    from . import lib_effect as E
+
+    def atom(x):
+        key = E.canon(x)
+        mm = re.match(r"^bitsink::MemSink::<[^>]*>::(paddings(?:_to_byte)?)\(arg1\)$", key)
+        if mm:
+            key = "%s(self)" % mm.group(1)
+        if key in subst:
+            return dict(subst[key])
+        return {key: 1}
+
+    def add(a, b, sg=1):
+        r = dict(a)
+        for k2, v in b.items():
+            r[k2] = r.get(k2, 0) + sg * v
+        return {k2: v for k2, v in r.items() if v != 0}
+
+    def go(x):
+        if not isinstance(x, tuple) or not x:
+            return {str(x): 1}
+        k = x[0]
+        if k == "c" and isinstance(x[1], int):
+            return {"": x[1]} if x[1] else {}
+        if k == "c" and x[2] and re.search(r"seal_bits::Sealed::BITS$", str(x[2])):
+            return {"size_of::<T>": 8}
+        if k == "call" and re.search(r"mem::size_of::<\w+>$", x[1]) and not x[2]:
+            return {"size_of::<T>": 1}
+        if k == "ovf":
+            return go(x[1])
+        if k == "cast":
+            fr = x[3] if len(x) > 3 else None
+            if x[1] in ("usize", "u64") and fr in ("usize", "u64", "u32", "u8", "u16", None):
+                return go(x[2])
+            return atom(x)
+        if k == "bin" and x[1] in ("Add", "Sub"):
+            return add(go(x[2]), go(x[3]), 1 if x[1] == "Add" else -1)
+        if k == "bin" and x[1] == "Mul":
+            a, b = go(x[2]), go(x[3])
+            for u, v in ((a, b), (b, a)):
+                if set(u.keys()) <= {""}:
+                    c = u.get("", 0)
+                    return {k2: c * w for k2, w in v.items() if c * w != 0}
+            return atom(x)
+        if k == "bin" and x[1] == "Shl" and E.is_c(x[3]):
+            return {k2: w << x[3][1] for k2, w in go(x[2]).items()}
+        if k == "sumloop":
+            body = go(x[2])
+            d = x[1]
+            if not E.mentions(x[2], _is_lc) and d[0] != "range":
+                n = atom(("len", d[2]))
+                if set(body.keys()) <= {""}:
+                    c = body.get("", 0)
+                    return {k2: c * w for k2, w in n.items() if c * w != 0}
+            return atom(x)
+        return atom(x)
+    return go(e)
+
+
+def _fmt_poly(p):
+    if not p:
+        return "0"
+    return " + ".join(("%s" % v if k == "" else (k if v == 1 else "%d*%s" % (v, k))) for k, v in sorted(p.items()))
+
+
+def rule_length(facts, impls):
+    from . import lib_effect as E
+    ln = RuleResult("LENGTH", "every sink operation advances the recorded bit length by exactly the ideal bit count")
+    pf = RuleResult("PADFORMULA", "the fill readers return the distance to the next word / byte boundary")
+    # --- PADFORMULA: paddings() == (-bitlength) mod S::BITS, paddings_to_byte() == (-bitlength) mod 8
+    readers = {}
+    for b in facts.body_list:
+        if (b.raw.get("impl_self") or "").startswith("bitsink::MemSink") and not b.raw.get("impl_trait") \
+                and b.raw.get("name") in ("paddings", "paddings_to_byte"):
+            ectx = E.Ctx(facts)
+            it = E.Interp(ectx, b)
+            try:
+                it.run()
+            except E.Undecided as e:
+                pf.fail(Finding("PADFORMULA", b.id, "undecided", 0, b.loc(), "cannot summarise %s: %s" % (b.id, e)))
+                continue
+            rv = it.retval
+            for unit in ((8, 64) if b.raw["name"] == "paddings" else (8,)):
+                bad = None
+                for B in list(range(0, 3 * unit + 1)) + [2 ** 32 - 1, 2 ** 32, 2 ** 40 + 5]:
+                    v = _eval_pad(rv, B, unit)
+                    if v is None:
+                        bad = (B, "not evaluable: %s" % E.show(rv)[:100])
+                        break
+                    if not (0 <= v < unit and (B + v) % unit == 0):
+                        bad = (B, v)
+                        break
+                if bad:
+                    pf.fail(Finding("PADFORMULA", b.id, "pad-formula/%d" % unit, 0, b.loc(),
+                                    "%s returns %s for a bit length of %d with %d-bit words; the distance to the next boundary is "
+                                    "%d" % (b.id, bad[1], bad[0], unit, (-bad[0]) % unit)))
+                else:
+                    pf.ok({"function": b.id, "unit_bits": unit, "summary": E.show(rv)[:100],
+                           "verdict": "= (-bitlength) mod %d on 0..=%d and three large lengths" % (unit, 3 * unit)})
+            readers[b.raw["name"]] = b
+    pf.require_floor(3, "fill reader x word width instances")
+    # --- WIDTH: Sealed::BITS == 8 * size_of::<T>() for the sealed operand types (used as an identity by LENGTH)
+    wd = RuleResult("WIDTH/const", "the operand-width constant of the sealed operand trait is 8 * size_of::<T>() for every implementor")
+    cb = {n: facts.bodies.get("bitsink::seal_bits::Sealed::" + n) for n in ("BITS", "BITS_LOG2", "BYTES")}
+    sealed = facts.impls_of_trait("bitsink::seal_bits::Sealed")
+    if not sealed or any(v is None for v in cb.values()):
+        wd.fail(Finding("WIDTH/const", "bitsink::seal_bits::Sealed", "anchor-missing", 0, "", "operand-width constants not found"))
+    else:
+        vals = {}
+        for n, b in cb.items():
+            it = E.Interp(E.Ctx(facts), b)
+            try:
+                it.run()
+                vals[n] = it.retval
+            except E.Undecided as e:
+                wd.fail(Finding("WIDTH/const", b.id, "undecided", 0, b.loc(), str(e)))
+        for imp in sealed:
+            t = imp["self"]
+            if imp["items"]:
+                wd.fail(Finding("WIDTH/const", imp["trait_full"], "override:%s" % t, 0, "%s:%s" % (imp["file"], imp["line"]),
+                                "the implementation of the sealed operand trait for %s overrides %s; the sinks take the operand "
+                                "width from these constants" % (t, ", ".join(x.split("::")[-1] for x in imp["items"]))))
+                continue
+            w = E.INT_BITS.get(t)
+            got = {n: _eval_width(vals.get(n), vals, w) for n in vals}
+            want = {"BITS": w, "BITS_LOG2": (w or 1).bit_length() - 1, "BYTES": (w or 0) // 8}
+            if w is None or got != want:
+                wd.fail(Finding("WIDTH/const", imp["trait_full"], "width:%s" % t, 0, "%s:%s" % (imp["file"], imp["line"]),
+                                "operand-width constants for %s evaluate to %s; the type has %s" % (t, got, want)))
+            else:
+                wd.ok({"type": t, "constants": got, "verdict": "ok"})
+    wd.require_floor(4, "implementors of the sealed operand trait")
+    # --- LENGTH
+    EXPECT = {
+        "write": lambda pad8: [{"size_of::<T>": 8}],
+        "write_msbs": lambda pad8: [{"arg3": 1}],
+        "write_lsbs": lambda pad8: [{"arg3": 1}],
+        "write_zeros": lambda pad8: [{"arg2": 1}],
+        "align_to_byte": lambda pad8: [{p: 1} for p in pad8],
+        "write_bytes_aligned": lambda pad8: [{p: 1, "len(arg2)": 8} for p in pad8],
+        "write_twoc": lambda pad8: [{"arg3": 1}],
+    }
+    for imp in impls:
+        m = re.search(r"^bitsink::MemSink<(u\d+)>$", imp["self"])
+        if not m:
+            continue
+        unit = E.INT_BITS[m.group(1)]
+        # the byte-distance readers: paddings_to_byte always; paddings when the storage word is a byte
+        pad8 = []
+        for nm, rb in readers.items():
+            if nm == "paddings_to_byte" or unit == 8:
+                pad8.append(nm)
+        for it_ in imp["items"]:
+            b = facts.bodies.get(it_)
+            if b is None or b.raw.get("name") not in EXPECT:
+                continue
+            name = b.raw["name"]
+            ectx = E.Ctx(facts)
+            ectx.track_fields = True
+            ectx.sink_internal = True
+            ectx.open_loops = True
+            ectx.noinline = [r"::paddings(_to_byte)?$", r"to_be_bytes|to_ne_bytes"]
+            itp = E.Interp(ectx, b)
+            try:
+                itp.run()
+            except E.Undecided as e:
+                ln.fail(Finding("LENGTH", b.id, "undecided", 0, b.loc(), "cannot summarise the length effect of %s: %s" % (b.id, e)))
+                continue
+            fin = itp.fields.get(("arg1", (".bitlength",)))
+            if fin is None:
+                ln.fail(Finding("LENGTH", b.id, "length-not-updated", 0, b.loc(),
+                                "%s never stores to self.bitlength: the bits it appends are not counted" % b.id))
+                continue
+            if isinstance(fin, tuple) and fin and fin[0] == "?":
+                ln.fail(Finding("LENGTH", b.id, "undecided", 0, b.loc(), "length of %s after the call is not summarisable (%s)"
+                                % (b.id, fin[1:])))
+                continue
+            pad_names = ["%s(self)" % p for p in pad8]
+            wants = EXPECT[name](pad_names)
+            bad = None
+            nleaf = 0
+            for conds, leaf in _leaves(fin):
+                subst = {}
+                for cexpr, labs in conds:
+                    ce = E.strip_casts(cexpr)
+                    if isinstance(ce, tuple) and ce[0] == "bin" and ce[1] == "Eq" and labs == (1,):
+                        for x, y in ((ce[2], ce[3]), (ce[3], ce[2])):
+                            if E.is_c(y):
+                                subst[E.canon(x)] = {"": y[1]} if y[1] else {}
+                                if re.search(r"seal_bits::Sealed::BITS$", E.canon(x)):
+                                    subst["size_of::<T>"] = {"": y[1] // 8} if y[1] else {}
+                    if isinstance(ce, tuple) and ce[0] == "bin" and ce[1] == "Ne" and labs == (0,):
+                        for x, y in ((ce[2], ce[3]), (ce[3], ce[2])):
+                            if E.is_c(y):
+                                subst[E.canon(x)] = {"": y[1]} if y[1] else {}
+                nleaf += 1
+                got = _poly(leaf, subst)
+                got["arg1.bitlength"] = got.get("arg1.bitlength", 0) - 1
+                got = {k: v for k, v in got.items() if v != 0}
+                ok = False
+                for w in wants:
+                    w2 = {}
+                    for k2, v in w.items():
+                        for k3, v3 in subst.get(k2, {k2: 1}).items():
+                            w2[k3] = w2.get(k3, 0) + v * v3
+                    w2 = {k: v for k, v in w2.items() if v != 0}
+                    if w2 == got:
+                        ok = True
+                if not ok:
+                    bad = (conds, got, wants)
+                    break
+            if bad:
+                conds, got, wants = bad
+                cs = " and ".join("%s in %s" % (E.show(c)[:60], list(l)) for c, l in conds) or "always"
+                ln.fail(Finding("LENGTH", b.id, "length-delta:%s" % name, 0, b.loc(),
+                                "%s advances self.bitlength by %s (when %s); an ideal bit string grows by %s. The recorded "
+                                "length disagrees with the bits written, so every later write lands at the wrong offset and "
+                                "len()/byte export are wrong" % (b.id, _fmt_poly(got), cs, " or ".join(_fmt_poly(w) for w in wants))))
+            else:
+                ln.ok({"function": b.id, "leaves": nleaf, "delta": " or ".join(_fmt_poly(w) for w in wants), "verdict": "ok"})
+    ln.require_floor(12, "sink operations summarised")
+    return [pf, wd, ln, rule_wordcount(facts, impls)]
+
+
+def _eval_pad(rv, B, unit):
+    from . import lib_effect as E
+    M = (1 << 64) - 1
+
+    def go(x):
+        x = E.strip_casts(x)
+        if not isinstance(x, tuple) or not x:
+            return None
+        k = x[0]
+        if k == "c":
+            if isinstance(x[1], int):
+                return x[1]
+            if x[2] and re.search(r"Sealed::BITS$", str(x[2])):
+                return unit
+            return None
+        if k == "p" and x[2] == (".bitlength",):
+            return B
+        if k == "proj" and x[2][-1:] == (".bitlength",):
+            return B
+        if k == "ovf":
+            return go(x[1])
+        if k == "un" and x[1] == "Not":
+            v = go(x[2])
+            return None if v is None else (~v) & M
+        if k == "un" and x[1] == "Neg":
+            v = go(x[2])
+            return None if v is None else (-v) & M
+        if k == "call" and re.search(r"wrapping_(add|sub|neg)$", x[1]):
+            vs = [go(a) for a in x[2]]
+            if any(v is None for v in vs):
+                return None
+            if x[1].endswith("add"):
+                return (vs[0] + vs[1]) & M
+            if x[1].endswith("sub"):
+                return (vs[0] - vs[1]) & M
+            return (-vs[0]) & M
+        if k == "bin":
+            a, b2 = go(x[2]), go(x[3])
+            if a is None or b2 is None:
+                return None
+            return E.evalc(("bin", x[1], E.C(a), E.C(b2)))
+        return None
+    return go(rv)
+
+
+def _eval_width(e, consts, w):
+    from . import lib_effect as E
+    if w is None or e is None:
+        return None
+
+    def go(x):
+        x = E.strip_casts(x)
+        if not isinstance(x, tuple) or not x:
+            return None
+        k = x[0]
+        if k == "c":
+            if isinstance(x[1], int):
+                return x[1]
+            m = re.search(r"Sealed::(BITS|BITS_LOG2|BYTES)$", str(x[2] or ""))
+            return go(consts.get(m.group(1))) if m else None
+        if k == "ovf":
+            return go(x[1])
+        if k == "call" and re.search(r"mem::size_of::<\w+>$", x[1]):
+            return w // 8
+        if k == "call" and x[1].endswith("::ilog2"):
+            v = go(x[2][0])
+            return None if not v else v.bit_length() - 1
+        if k == "call" and x[1].endswith("::trailing_zeros"):
+            v = go(x[2][0])
+            return None if not v else (v & -v).bit_length() - 1
+        if k == "bin":
+            a, b2 = go(x[2]), go(x[3])
+            if a is None or b2 is None:
+                return None
+            return E.evalc(("bin", x[1], E.C(a), E.C(b2)))
+        return None
+    return go(e)
+
+
+# ------------------------------------------------------------------------------------------------ WORDCOUNT
+# The storage of a sink holds exactly ceil(bitlength / word bits) words: byte export, len() and every later write rely on
+# it.  With field tracking on and the fill readers inlined, the effect interpreter summarises the storage length and the
+# bit length after each BitSink method as case trees over the initial state and the arguments; the summaries are
+# evaluated over every starting offset within two words, every bit count up to the operand width (every operand type),
+# zero runs spanning several words and byte slices spanning several words: if the invariant holds before, it must hold
+# after, and the bit length must advance by the ideal count.
+
+def _evals(e, env):
+    """Evaluate a summary expression under env; returns int or None."""
+    from . import lib_effect as E
+    M = (1 << 64) - 1
+
+    def go(x):
+        if not isinstance(x, tuple) or not x:
+            return None
+        k = x[0]
+        if k == "c":
+            if isinstance(x[1], int):
+                return x[1]
+            if x[2] and re.search(r"seal_bits::Sealed::BITS$", str(x[2])):
+                return env.get("W")
+            if x[2] and re.search(r"seal_bits::Sealed::BYTES$", str(x[2])):
+                return env["W"] // 8 if env.get("W") else None
+            return None
+        if k == "p":
+            if x[1] == 1 and x[2] == (".bitlength",):
+                return env["B"]
+            if not x[2]:
+                return env.get("arg%d" % x[1])
+            return None
+        if k == "len":
+            y = E.strip_casts(x[1])
+            cy = E.canon(y)
+            if cy == "arg1.storage":
+                return env["L"]
+            if re.search(r"to_(be|ne|le)_bytes", cy):
+                return env["W"] // 8 if env.get("W") else None
+            if isinstance(y, tuple) and y[0] == "p" and not y[2]:
+                return env.get("len_arg%d" % y[1])
+            return None
+        if k in ("idx",):
+            return env.get(("idx", x[1]))
+        if k == "ovf":
+            return go(x[1])
+        if k == "cast":
+            v = go(x[2])
+            if v is None:
+                return None
+            w = E.INT_BITS.get(x[1])
+            return v & ((1 << w) - 1) if w else v
+        if k == "un" and x[1] == "Not":
+            v = go(x[2])
+            return None if v is None else (~v) & M
+        if k == "call":
+            nm = x[1]
+            vs = [go(a) for a in x[2]]
+            if re.search(r"mem::size_of::<\w+>$", nm) and not x[2]:
+                return env["W"] // 8 if env.get("W") else None
+            if any(v is None for v in vs):
+                return None
+            if nm.endswith("::wrapping_add"):
+                return (vs[0] + vs[1]) & M
+            if nm.endswith("::wrapping_sub"):
+                return (vs[0] - vs[1]) & M
+            if nm.endswith("::saturating_sub"):
+                return max(0, vs[0] - vs[1])
+            if re.search(r"cmp::min(::<\w+>)?$", nm):
+                return min(vs)
+            if re.search(r"cmp::max(::<\w+>)?$", nm):
+                return max(vs)
+            return None
+        if k == "bin":
+            a, b2 = go(x[2]), go(x[3])
+            if a is None or b2 is None:
+                return None
+            return E.evalc(("bin", x[1], E.C(a), E.C(b2)))
+        if k == "case":
+            d = go(x[1])
+            if d is None:
+                return None
+            other = None
+            for lab, v in x[2]:
+                labs = lab if isinstance(lab, tuple) else (lab,)
+                if d in labs:
+                    return go(v)
+                if "else" in labs:
+                    other = v
+            return go(other) if other is not None else None
+        if k == "sumloop":
+            d = x[1]
+            if d[0] == "range":
+                lo, hi = go(d[2]), go(d[3])
+            else:
+                lo, hi = 0, go(("len", d[2]))
+            if lo is None or hi is None:
+                return None
+            tot = 0
+            old = env.get(("idx", d[1]))
+            for i in range(lo, hi):
+                env[("idx", d[1])] = i
+                v = go(x[2])
+                if v is None:
+                    return None
+                tot += v
+            env[("idx", d[1])] = old
+            return tot
+        return None
+    return go(e)
+
+
+def rule_wordcount(facts, impls):
+    from . import lib_effect as E
+    wc = RuleResult("WORDCOUNT", "after every sink operation the storage holds ceil(bitlength / word bits) words and the bit "
+                                 "length has advanced by the ideal count (summaries evaluated over offsets x counts x operand types)")
+    IDEAL = {
+        "write": lambda env: env["W"],
+        "write_msbs": lambda env: env["arg3"],
+        "write_lsbs": lambda env: env["arg3"],
+        "write_zeros": lambda env: env["arg2"],
+        "align_to_byte": lambda env: (-env["B"]) % 8,
+        "write_bytes_aligned": lambda env: (-env["B"]) % 8 + 8 * env["len_arg2"],
+    }
+    for imp in impls:
+        m = re.search(r"^bitsink::MemSink<(u\d+)>$", imp["self"])
+        if not m:
+            continue
+        unit = E.INT_BITS[m.group(1)]
+        for it_ in imp["items"]:
+            b = facts.bodies.get(it_)
+            if b is None or b.raw.get("name") not in IDEAL:
+                continue
+            name = b.raw["name"]
+            ectx = E.Ctx(facts)
+            ectx.track_fields = True
+            ectx.sink_internal = True
+            ectx.open_loops = True
+            ectx.noinline = [r"to_be_bytes|to_ne_bytes"]
+            itp = E.Interp(ectx, b)
+            try:
+                itp.run()
+            except E.Undecided as e:
+                wc.fail(Finding("WORDCOUNT", b.id, "undecided", 0, b.loc(), "cannot summarise %s: %s" % (b.id, e)))
+                continue
+            finB = itp.fields.get(("arg1", (".bitlength",)), ("p", 1, (".bitlength",)))
+            finL = itp.fields.get(("arg1", (".storage", "#len")), ("len", ("p", 1, (".storage",))))
+            generic = name in ("write", "write_msbs", "write_lsbs")
+            widths = (8, 16, 32, 64) if generic else (None,)
+            offsets = list(range(0, 2 * unit + 1)) + [2 ** 32 - 3, 2 ** 32, 2 ** 40 + 5 * unit + 1]
+            bad = None
+            rows = 0
+            for W in widths:
+                if name in ("write_msbs", "write_lsbs"):
+                    counts = [("arg3", n) for n in range(0, W + 1)]
+                elif name == "write_zeros":
+                    counts = [("arg2", n) for n in list(range(0, 3 * unit + 2)) + [1000, 4096 + 7]]
+                elif name == "write_bytes_aligned":
+                    counts = [("len_arg2", n) for n in range(0, 2 * unit // 8 + 3)]
+                else:
+                    counts = [(None, 0)]
+                for B in offsets:
+                    L = -(-B // unit)
+                    for cn, cv in counts:
+                        env = {"B": B, "L": L, "W": W}
+                        if cn:
+                            env[cn] = cv
+                        rows += 1
+                        B2 = _evals(finB, env)
+                        L2 = _evals(finL, env)
+                        wantB = B + IDEAL[name](env)
+                        if B2 is None or L2 is None:
+                            bad = ("not-evaluable", env, E.show(finB if B2 is None else finL)[:160], None)
+                            break
+                        if B2 != wantB:
+                            bad = ("bitlength", env, B2, wantB)
+                            break
+                        if L2 != -(-B2 // unit):
+                            bad = ("storage-words", env, L2, -(-B2 // unit))
+                            break
+                    if bad:
+                        break
+                if bad:
+                    break
+            if bad:
+                kind, env, got, want = bad
+                envs = ", ".join("%s=%s" % (k, v) for k, v in env.items() if v is not None and not isinstance(k, tuple))
+                if kind == "not-evaluable":
+                    wc.fail(Finding("WORDCOUNT", b.id, "undecided", 0, b.loc(),
+                                    "summary of %s cannot be evaluated for %s: %s" % (b.id, envs, got)))
+                else:
+                    wc.fail(Finding("WORDCOUNT", b.id, "%s:%s" % (kind, name), 0, b.loc(),
+                                    "%s, called with %s (B = bit length, L = storage words, W = operand width) on a consistent "
+                                    "sink, leaves %s = %s; an ideal bit string has %s. The storage and the recorded length "
+                                    "disagree, so the byte export and every later write are wrong"
+                                    % (b.id, envs, kind, got, want)))
+            else:
+                wc.ok({"function": b.id, "rows": rows, "unit_bits": unit, "operand_widths": [w for w in widths if w],
+                       "storage_len": E.show(finL)[:200], "verdict": "invariant preserved on every row"})
+    wc.require_floor(12, "sink operations summarised")
+    return wc
